@@ -13,6 +13,10 @@ T2 (correspondence, evaluated by vm_compute on the same inputs), everything thro
   order : the same (universe, request) under all creation orders must give the identical canonical observation
   seeds : a few universes re-run in fresh subprocesses under different PYTHONHASHSEED values
   doc   : plugin_docs.resolve_feature on the same universes against doc_resolve
+  hist  : second family, harness/c10_hist.py: histories of ONE process in which feature-group classes (criteria over name /
+          group options / context options) and compute-framework subclasses are created BETWEEN requests of 1..4 features;
+          Model/ResolveHist.v run_history on the same operation prefix; last request re-observed after a different history
+          in other / fresh processes
 """
 from __future__ import annotations
 
